@@ -28,6 +28,17 @@ Compensating == \E m \in 1..Len(Trees) : Len(Trees[m].nodes) <= RuleLimit /\
               /\ \E f1 \in {"del", "dup"} : \E f2 \in {"del", "dup"} : f1 # f2
                     /\ Disjoint(Trees[m].nodes, f1, n1, f2, n2)
                     /\ c = [m |-> m, ops |-> <<[f |-> f1, n |-> n1], [f |-> f2, n |-> n2]>>]
-Init == (Single \/ Double \/ Compensating) /\ PrintT(<<"CASE", ToJson(c)>>)
+\* a definition (decision, knowledge model, decision service, item definition, input data) duplicated - two elements
+\* with one id and one name - while a reference INSIDE its first copy is pointed at the definition itself, at the
+\* enclosing definition or at the target of the next reference: whichever of the two copies a component of the
+\* evaluator goes by, a requirement cycle closed through one copy must not escape the checks made on the other
+Definitions == {"decision", "businessKnowledgeModel", "decisionService", "itemDefinition", "inputData"}
+DupRetarget == \E m \in 1..Len(Trees) : Len(Trees[m].nodes) <= RuleLimit /\
+            \E n1 \in 1..Len(Trees[m].nodes) : Trees[m].nodes[n1].k = "e" /\ Trees[m].nodes[n1].nm \in Definitions /\ Trees[m].nodes[n1].d = 2 /\
+            \E n2 \in (n1 + 1)..Trees[m].nodes[n1].last : Trees[m].nodes[n2].ref /\
+            \E f2 \in {"self", "other", "ancestor"} :
+              /\ FaultEnabled(Trees[m].nodes, "dup", n1) /\ FaultEnabled(Trees[m].nodes, f2, n2)
+              /\ c = [m |-> m, ops |-> <<[f |-> "dup", n |-> n1], [f |-> f2, n |-> n2]>>]
+Init == (Single \/ Double \/ Compensating \/ DupRetarget) /\ PrintT(<<"CASE", ToJson(c)>>)
 Next == FALSE /\ c' = c
 =============================================================================
